@@ -614,6 +614,7 @@ static void child_batch(int fd, RunCfg cfg, uint64_t from, uint64_t to, uint64_t
   g_child_fd = fd;
   memset(&g_batch, 0, sizeof g_batch);
   install_child_handlers();
+  int nviol_batch = 0;
   for (uint64_t idx = from; idx < to; idx += stride) {
     g_cur_index = idx;
     cfg.index = idx;
@@ -656,6 +657,8 @@ static void child_batch(int fd, RunCfg cfg, uint64_t from, uint64_t to, uint64_t
       std::string v = std::to_string(idx) + "\t" + std::to_string(out.result) + "\t" + out.sig + "\t" + pth + "\t" +
                       out.detail;
       send_msg(fd, 'V', v.c_str(), (uint32_t)v.size() + 1);
+      if (++nviol_batch >= 12)
+        abnormal = true;  // enough material: stop this batch (the worker stops as well)
     }
     if (abnormal) {
       send_msg(fd, 'B', &g_batch, sizeof g_batch);
@@ -722,7 +725,7 @@ struct WorkerStats
 {
   uint64_t runs = 0, ok = 0, viol = 0, deadlock = 0, cap = 0, crash = 0, timeout = 0;
   uint64_t steps = 0, switches = 0, branch = 0, nontrivial_runs = 0, max_threads = 0;
-  uint64_t det_checked = 0, det_mismatch = 0;
+  uint64_t det_checked = 0, det_mismatch = 0, det_nonok = 0;
   MsgBatch batch;
   std::unordered_set<uint64_t> ilv;      // distinct interleavings among nontrivial runs
   std::unordered_set<uint64_t> plans;
@@ -988,6 +991,11 @@ static int cmd_worker(int argc, char **argv)
         continue;
       if (ws.det_checked >= 400)
         break;
+      if (m.result != RES_OK) {
+        if (ws.det_nonok >= 4)
+          continue;
+        ws.det_nonok++;
+      }
       RunCfg c2 = cfg;
       c2.index = m.index;
       MsgRun m2;
